@@ -34,15 +34,19 @@ EXTRA = {
         "what exists at a location (folder listing in iterdir order, sheet rows) is observed by the harness, not "
         "re-derived; load identifiers are canonicalised to their path part (the mtime suffix is outside the model; "
         "two versions of one path within a second are not exercised)",
-        "tables in the generated files parse without error; directive lines are text cells; specifications are "
-        "ASCII (Python str.lower agrees with the model's ASCII lower-casing there)",
+        "a table that does not parse is marked as such by the generator (one illegal numeric cell) — what makes a "
+        "table unparsable is C12/C02's matter, the loader model only takes the flag; a directive line that is not a "
+        "text cell reaches the model as CPython's str() of the cell; specifications are ASCII (Python str.lower "
+        "agrees with the model's ASCII lower-casing there) and hold no NUL",
         "the work-list discipline is a parameter of the model (theorems hold for every discipline); the run uses "
         "the discipline observed on a two-root probe (LIFO for `list.pop()`)",
         "single-threaded load, no file changes during a load",
     ],
     "explanation": "Props/C16.lean: terminates (fuel bound from the world), reads_sound / reads_reachable (work-list "
                    "invariant), at_most_once, blocks_contiguous_in_file_order (+ includes_consumed), duplicate_reported "
-                   "(per location: tracker errors = arrivals - 1), default_tracker_stops_at_duplicate, protocol_dispatch — "
+                   "(per location: tracker errors = arrivals - 1), default_tracker_stops_at_duplicate, protocol_dispatch "
+                   "(+ protocol_dispatch_file_override), bad_table_status — reachability and blocks are taken in "
+                   "effWorld (each file cut to what a read under the tracker gets through) — "
                    "for every world, root list, tracker, allow_include and work-list discipline.",
     "trusted_base": ["sys.addaudithook 'open'/'os.listdir' events as the record of what was opened"],
 }
@@ -242,9 +246,19 @@ def observe_world(case, m):
             finally:
                 wb.close()
         m.rows[fid] = sheets
+
+        def first_cell(c):
+            # a first cell that is not text reaches the model as the text CPython's str() makes of it
+            if c is None or isinstance(c, str):
+                return cell_to_json(c)
+            return {"o": str(c)}
+
         nodes.append({"loc": fid, "kind": "file",
                       "sheets": [{"name": s["name"], "use": s["use"],
-                                  "rows": [[cell_to_json(c) for c in r] for r in s["rows"]]} for s in sheets]})
+                                  "bad_rows": [b["row"] for b in gs["truth"] if b["ty"] == "TABLE" and b.get("bad")],
+                                  "rows": [[first_cell(c) if j == 0 else cell_to_json(c) for j, c in enumerate(r)]
+                                           for r in s["rows"]]}
+                                 for s, gs in zip(sheets, f["sheets"])]})
     return nodes
 
 
@@ -386,8 +400,11 @@ def run_impl(case, m, time_limit=20, shared=None, audit_prefix=None):
     kwargs = dict(issue_tracker=tracker, allow_include=case["allow_include"])
     if case["root_folder"]:
         kwargs["root_folder"] = m.root
-    if case["start_pattern"] is not None:
+    mode = case.get("pattern_mode", "start")
+    if mode in ("start", "both") and case["start_pattern"] is not None:
         kwargs["file_name_start_pattern"] = case["start_pattern"]
+    if mode in ("compiled", "both"):
+        kwargs["file_name_pattern"] = ref_pattern(case["start_pattern"])
     if case.get("sheet_pattern"):
         kwargs["sheet_name_pattern"] = re.compile(case["sheet_pattern"])
     if case["mem"]:
@@ -433,7 +450,7 @@ def run_impl(case, m, time_limit=20, shared=None, audit_prefix=None):
             o["name"] = b.name
         elif bt == BlockType.DIRECTIVE:
             il = b.origin.input_location
-            o["name"], o["lines"] = b.name, list(b.lines)
+            o["name"], o["lines"] = b.name, [x if isinstance(x, str) else str(x) for x in b.lines]
         elif bt == BlockType.METADATA:
             il = b.origin.input_location
         else:
@@ -457,7 +474,10 @@ def run_impl(case, m, time_limit=20, shared=None, audit_prefix=None):
         for i in tracker.issues:
             it = i.load_item
             src = None if it is None or it.source is None else canon_location(m, it.source)[0]
-            if i.load_location is not None:
+            if i.load_location is not None and type(i.load_location).__name__ == "LocationBlock":
+                cl = canon_location(m, i.load_location)
+                issues.append(["parse", cl[0], cl[1][0], cl[1][1]])
+            elif i.load_location is not None:
                 issues.append(["dup", canon_location(m, i.load_location)[0], it.specification, src])
             else:
                 issues.append(["resolve", it.specification, src])
@@ -471,7 +491,10 @@ def model_op(case, m, nodes, table, order):
             "protocols": [["mem", 1]] if case["mem"] else None,
             "resolve": table,
             "roots": [subst(s, m) for s in (case["roots"] if case["roots"] is not None else ["/"])],
-            "raising": case["tracker"] != "collecting", "allow_include": case["allow_include"], "order": order}
+            "raising": case["tracker"] != "collecting", "allow_include": case["allow_include"], "order": order,
+            "pattern_args": [case.get("pattern_mode", "start") in ("compiled", "both"),
+                             case.get("pattern_mode", "start") in ("start", "both")
+                             and case["start_pattern"] is not None]}
 
 
 def compare(case, m, impl, ans, out, with_history=False):
@@ -569,8 +592,25 @@ def oracle(case, m, impl, out):
     reach_files = {n[1] for n in seen if n[0] == "F" and case["files"][n[1]]["kind"] != "txt"}
     repeated = {n: c - 1 for n, c in arrivals.items() if c > 1 and n[0] != "X"}
     raising = case["tracker"] != "collecting"
-    complete = not fatal and not (raising and repeated)
     st = impl["status"]
+    if case.get("pattern_mode") == "both" and case["start_pattern"] is not None:
+        # make_loader refuses file_name_pattern together with file_name_start_pattern
+        if st != {"exc": "ValueError"} or impl["out"] or impl["reads"]:
+            out.fail("file_name_pattern together with file_name_start_pattern was not refused with ValueError "
+                     "before anything was read", short, {"status": st, "reads": impl["reads"]}, {"exc": "ValueError"},
+                     key="pattern_args")
+        return
+    # tables that do not parse, in the sheets that are read of the reachable files
+    bad_at = {}
+    for i in reach_files:
+        for sh in case["files"][i]["sheets"]:
+            if sh.get("use", True):
+                for b in sh["truth"]:
+                    if b["ty"] == "TABLE" and b.get("bad"):
+                        bad_at.setdefault(i, []).append((sh["name"], b["row"]))
+    if raising and bad_at:
+        fatal.add("badtable")
+    complete = not fatal and not (raising and repeated)
 
     def fail(what, key, observed=None, expected=None):
         out.fail(what, short, observed if observed is not None else impl["status"], expected, key=key)
@@ -582,11 +622,16 @@ def oracle(case, m, impl, out):
     exp = {}
     for i in reach_files:
         f = case["files"][i]
-        lst = []
+        lst, stop = [], False
         for si, sh in enumerate(f["sheets"]):
-            if not sh.get("use", True):
+            if not sh.get("use", True) or stop:
                 continue
             for b in sh["truth"]:
+                if b["ty"] == "TABLE" and b.get("bad"):
+                    if raising:          # the default tracker raises here: nothing after it is delivered
+                        stop = True
+                        break
+                    continue             # a collecting tracker is told; the table is dropped
                 if case["allow_include"] and b["ty"] == "DIRECTIVE" and b["name"] == "include":
                     continue
                 lst.append((b["ty"], sh["name"], b["row"]))
@@ -642,12 +687,21 @@ def oracle(case, m, impl, out):
                  sorted(m.path_of[x] for x in reads), sorted(m.path_of[x] for x in reach_ids))
             return
         if not raising:
-            named = {}
+            named, parse = {}, []
             for i in impl["issues"]:
+                if i[0] == "parse":
+                    parse.append((i[1], i[2], i[3]))
+                    continue
                 if i[0] != "dup":
-                    fail("tracker holds an issue that is not a repeated-location error", "foreign_issue", i)
+                    fail("tracker holds an issue that is neither a repeated-location error nor a table that does "
+                         "not parse", "foreign_issue", i)
                     return
                 named[i[1]] = named.get(i[1], 0) + 1
+            want_parse = sorted((m.file_id[i], sn, r) for i, lst in bad_at.items() for sn, r in lst)
+            if sorted(parse, key=repr) != sorted(want_parse, key=repr):
+                fail("the tables that do not parse are not reported once each, at their location", "bad_table_reports",
+                     sorted(parse, key=repr), sorted(want_parse, key=repr))
+                return
             want = {}
             for n, c in repeated.items():
                 want[m.file_id[n[1]] if n[0] == "F" else m.folder_id[n[1]]] = c
@@ -658,7 +712,7 @@ def oracle(case, m, impl, out):
                 return
     else:
         allowed = set()
-        if raising and (repeated or "loaderror" in fatal):
+        if raising and (repeated or "loaderror" in fatal or "badtable" in fatal):
             allowed.add("InputError")
         if not raising and "loaderror" in fatal:
             allowed.add("LoadError")
@@ -720,14 +774,20 @@ def gen_sheet(rng, fi, si, name, elements, xlsx, offsets=True, lead_fixed=None):
             if rng.random() < 0.5:
                 rows.append(cells("purpose:", "p" + odd() + "q"))
         elif kind == "table":
-            truth.append({"ty": "TABLE", "row": len(rows), "name": el[1]})
+            bad = len(el) > 2 and el[2]
+            truth.append({"ty": "TABLE", "row": len(rows), "name": el[1], "bad": bool(bad)})
             ncol = rng.choice([1, 2])
             rows.append(cells("**" + el[1], "") if not xlsx else cells("**" + el[1]))
             rows.append(cells("all"))
             cols = ["c%d" % j for j in range(ncol)]
             rows.append(cells(*cols))
             units = [rng.choice(["-", "m", "text"]) for _ in cols]
+            if bad:
+                units[0] = "m"
             rows.append(cells(*units))
+            if bad:
+                # one cell that does not parse: the table handler raises ValueError
+                rows.append(cells("xx", *[("v" if u == "text" else (1 if xlsx else "1")) for u in units[1:]]))
             for _ in range(rng.choice([0, 1, 2])):
                 vals = []
                 for u in units:
@@ -739,8 +799,10 @@ def gen_sheet(rng, fi, si, name, elements, xlsx, offsets=True, lead_fixed=None):
                         vals.append(str(rng.choice([1, 2.5, 3])))
                 rows.append(cells(*vals))
         elif kind == "include":
+            # a line that is not a text cell (a number typed into a workbook) is the specification str(cell)
             truth.append({"ty": "DIRECTIVE", "row": len(rows), "name": "include",
-                          "lines": [s for s, _ in el[1]], "targets": [t for _, t in el[1]]})
+                          "lines": [s if isinstance(s, str) else str(s) for s, _ in el[1]],
+                          "targets": [t for _, t in el[1]]})
             rows.append(cells("***include", "") if (not xlsx and rng.random() < 0.5) else cells("***include"))
             for s, _ in el[1]:
                 rows.append(cells(s))
@@ -766,6 +828,9 @@ def gen_sheet(rng, fi, si, name, elements, xlsx, offsets=True, lead_fixed=None):
             rows += [list(blank) for _ in range(rng.choice([1, 1, 2, 3]) if offsets else 1)]
     return {"name": name, "rows": rows, "truth": truth}
 
+
+HOSTILE_TITLES = ["in a b", "it's", "x!A3", "s#", "\u00e9_\u00fc", "in_'q'!A7", " lead", "#'x'!A1", "'q", "set_q'",
+                  "in_tab\t", "x'!A"]
 
 FOLDER_LAYOUTS = [[""], ["", "p"], ["", "p", "p/q"], ["", "p", "r"], ["", "in_d.csv"]]
 
@@ -881,6 +946,8 @@ def build_case(rng, n_files, edges, *, folders, kinds, root_folder, roots_mode, 
                     lines.append(bad_spec(rng, case, i))
                 else:
                     lines.append(spec_for(rng, case, i, t))
+            if xlsx and rich and lines and rng.random() < 0.12:
+                lines.insert(rng.randrange(len(lines) + 1), (rng.choice([12, 12.5, True, 7]), ("X", "missing")))
             # the same specification listed again in the same directive (adjacent or not): equal LoadItems
             if lines and rng.random() < (0.3 if rich else 0.15):
                 j = rng.randrange(len(lines))
@@ -897,7 +964,7 @@ def build_case(rng, n_files, edges, *, folders, kinds, root_folder, roots_mode, 
             els = per_sheet[si]
             ntab = rng.choice([0, 1, 1, 2, 3]) if rich else 1
             for _ in range(ntab):
-                els.append(("table", f"t{i}_{tno}"))
+                els.append(("table", f"t{i}_{tno}", rich and rng.random() < opts.get("bad_p", 0.05)))
                 tno += 1
             if rich:
                 if rng.random() < 0.35:
@@ -912,6 +979,9 @@ def build_case(rng, n_files, edges, *, folders, kinds, root_folder, roots_mode, 
             elif rich and rng.random() < 0.3:
                 els.insert(0, ("meta",))
             sname = None if not xlsx else rng.choice(["in_", "set_", "x_"]) + "s%d" % si
+            if xlsx and rich and rng.random() < 0.3:
+                # titles that show up verbatim inside load identifiers: blanks, quotes, '!A3', '#', non-ASCII
+                sname = rng.choice(HOSTILE_TITLES) + str(si)
             sh = gen_sheet(rng, i, si, sname, els, xlsx, offsets=rich,
                            lead_fixed=lead_common if si in front else None)
             if si in front:
@@ -1040,6 +1110,8 @@ def random_case(crng, xlsx_share=0.2, force_mem=False):
                       allow_include=crng.random() < 0.85, mem=mem, extra_edges=extra, rich=True,
                       sheet_pattern=crng.choice([None, None, "in_", "(in|set)_"]))
     case["gen"] = {"random": True}
+    r = crng.random()
+    case["pattern_mode"] = "compiled" if r < 0.45 else "both" if (r < 0.5 and start is not None) else "start"
     return case
 
 
@@ -1074,6 +1146,13 @@ def classify(case, impl, out):
     out.count("allow_include:" + str(case["allow_include"]))
     out.count("mem:" + str(case["mem"]))
     out.count("pattern:" + str(case["start_pattern"]))
+    out.count("pattern_mode:" + case.get("pattern_mode", "start"))
+    if any(b.get("bad") for f in case["files"] for sh in f["sheets"] for b in sh["truth"]):
+        out.count("cases_with_a_table_that_does_not_parse:" + case["tracker"])
+    if any(not isinstance(r[0], (str, type(None))) for f in case["files"] if f["kind"] == "xlsx"
+           for sh in f["sheets"] for b in sh["truth"] if b["ty"] == "DIRECTIVE" and b["name"] == "include"
+           for r in sh["rows"][b["row"] + 1: b["row"] + 1 + len(b["lines"])] if r):
+        out.count("cases_with_a_non_text_include_line")
     out.count("roots:" + ("default" if case["roots"] is None else str(len(case["roots"]))))
     if any(len(b["lines"]) != len(set(b["lines"])) for f in case["files"] for sh in f["sheets"]
            for b in sh["truth"] if b["ty"] == "DIRECTIVE" and b["name"] == "include"):
@@ -1087,6 +1166,70 @@ def classify(case, impl, out):
         out.count("cases_with_tracker_issues")
     for f in case["files"]:
         out.count("filekind:" + f["kind"])
+
+
+def dispatch_stream(tier, seed, out, ops, pend):
+    """function level: make_loader(additional_protocol_loaders=d) builds the ProtocolLoader; which loader does
+    `.resolve` hand a specification to?  Dicts of 1-3 names, possibly with their own "file" entry, a name that is
+    a prefix of another, names with a colon; specifications in mixed case.  Compared with driver op `dispatch`;
+    the oracle is the C16 sentence: a registered prefix selects that loader, anything else the file-system
+    loader (the caller's own "file" loader when one is registered)."""
+    from pdtable.io.load._loaders import make_loader
+    from pdtable.table_origin import LoadItem
+    rng = make_rng(seed, "C16:dispatch")
+    names_pool = ["mem", "me", "memo", "file", "fil", "db", "d", "a:b", "a", "x-y", "files"]
+    bodies = ["x.csv", "/x.csv", "", ":", "a:b", "mem:y", "file:/z"]
+    n = 3000 if tier == "thorough" else 400
+
+    class Stub:
+        def __init__(self, no, log):
+            self.no, self.log = no, log
+
+        def resolve(self, load_item, orchestrator):
+            self.log.append(self.no)
+            return None
+
+    for k in range(n):
+        names = rng.sample(names_pool, rng.choice([1, 2, 2, 3]))
+        log = []
+        add = {nm: Stub(i + 1, log) for i, nm in enumerate(names)}
+        number = {nm: i + 1 for i, nm in enumerate(names)}
+        loader = make_loader(additional_protocol_loaders=add, allow_include=False)
+        handlers = loader.protocol_handlers
+        if list(add.keys()) != names:
+            out.fail("make_loader changed the caller's additional_protocol_loaders dict",
+                     {"dispatch": {"additional": [[nm, number[nm]] for nm in names], "spec": ""}, "seed": seed,
+                      "index": f"d{k}"}, sorted(map(str, add.keys())), names, key="caller_dict_modified")
+            continue
+        if "file" not in names:
+            handlers["file"].resolve = Stub(0, log).resolve        # the built-in file-system loader is loader 0
+        pick = rng.choice(names + ["file", "FILE", "nothing", ""])
+        pre = "".join(ch.upper() if rng.random() < 0.4 else ch for ch in pick)
+        spec = (pre + ":" if rng.random() < 0.8 else pre) + rng.choice(bodies)
+        case = {"dispatch": {"additional": [[nm, i + 1] for i, nm in enumerate(names)], "spec": spec},
+                "seed": seed, "index": f"d{k}"}
+        try:
+            loader.resolve(LoadItem(spec, None), None)
+            got = log[-1] if log else None
+        except Exception as e:  # noqa
+            got = {"exc": type(e).__name__}
+        out.evaluations += 1
+        out.count("dispatch:" + ("file_overridden" if "file" in names else "file_builtin"))
+        # oracle
+        low = spec.lower()
+        file_no = number.get("file", 0)
+        table = [("file", file_no)] + [(nm, number[nm]) for nm in names if nm != "file"]
+        carried = [no for nm, no in table if low.startswith(nm + ":")]
+        ok = (got == file_no) if not carried else (got in carried)
+        if len(set(carried)) > 1:
+            out.count("dispatch:several_prefixes_carried")
+        if not ok:
+            out.fail("a specification was not handed to the loader registered for the prefix it carries "
+                     "(or, carrying none, to the file-system loader)", case, got,
+                     sorted(set(carried)) or [file_no], key="dispatch")
+        if ops is not None:
+            ops.append({"op": "dispatch", "additional": case["dispatch"]["additional"], "spec": spec})
+            pend.append(("dispatch", case, got))
 
 
 def gen_histories(tier, seed, search=False):
@@ -1138,7 +1281,8 @@ def run(tier, seed, model_ok, translator, search=False):
                 "edge; (b) random input sets of 1-6 files (csv, multi-sheet xlsx, mem:, unsupported .txt) in up to 3 "
                 "folders with folder includes, unloadable targets, name patterns, sheet patterns, several roots; "
                 "(c) histories of 2-3 consecutive load_files calls over different trees that are handed the same "
-                "additional_protocol_loaders dict object. "
+                "additional_protocol_loaders dict object; (d) function level: ProtocolLoader.resolve on dicts of "
+                "1-3 protocol names (own \"file\" entry, prefix-of-another names) x mixed-case specifications. "
                 "Non-trivial: at least one include edge or folder root; distinct by full case content.")
     scratch = Path(tempfile.mkdtemp(prefix="c16-")).resolve()
     ops, pend = [], []
@@ -1187,8 +1331,16 @@ def run(tier, seed, model_ok, translator, search=False):
             if len({c["start_pattern"] for c in calls}) > 1:
                 out.count("histories_with_differing_name_pattern")
             shutil.rmtree(base, ignore_errors=True)
+        use_model = model_ok and not search
+        dispatch_stream(tier, seed, out, ops if use_model else None, pend if use_model else None)
         if model_ok and ops:
-            for (inp, m, impl, case), ans in zip(pend, common.run_model(ops)):
+            for pe, ans in zip(pend, common.run_model(ops)):
+                if pe[0] == "dispatch":
+                    if ans != pe[2]:
+                        out.mismatch("ProtocolLoader.resolve picks another loader than the model's dispatch",
+                                     pe[1], pe[2], ans)
+                    continue
+                (inp, m, impl, case) = pe
                 n_before = len(out.mismatches)
                 compare(case, m, impl, ans, out)
                 if inp is not case:
@@ -1204,6 +1356,12 @@ def run(tier, seed, model_ok, translator, search=False):
 
 def replay(rep):
     case = rep.get("input") or {}
+    if "dispatch" in case:
+        o = Outcome()
+        # the stream is regenerated: the case is found by its index
+        dispatch_stream("thorough", int(rep.get("seed", 0)), o, None, None)
+        hit = [f for f in o.failures if f["input"]["dispatch"] == case["dispatch"]]
+        return (False, hit[0]["what"]) if hit else (True, "property holds on this input")
     if "history" in case:
         scratch = Path(tempfile.mkdtemp(prefix="c16r-")).resolve()
         try:
